@@ -283,6 +283,49 @@ func cfClearCaches(v reflect.Value, depth int) {
 	}
 }
 
+func cfParent(path string) string {
+	if i := strings.LastIndex(path, "."); i >= 0 {
+		return path[:i]
+	}
+	return ""
+}
+
+func cfFlagCarried(x encoder, l cfLeaf, leaves []cfLeaf) bool {
+	var sib []cfLeaf
+	for _, o := range leaves {
+		if o.path != l.path && o.v.Kind() == reflect.Bool && o.v.CanSet() && cfParent(o.path) == cfParent(l.path) {
+			sib = append(sib, o)
+		}
+	}
+	if len(sib) == 0 {
+		return false
+	}
+	saved := make([]bool, len(sib))
+	for i, o := range sib {
+		saved[i] = o.v.Bool()
+	}
+	mine := l.v.Bool()
+	carried := false
+	for _, all := range []bool{false, true} {
+		for _, o := range sib {
+			o.v.SetBool(all)
+		}
+		l.v.SetBool(mine)
+		h0, ok0 := cfEncodeHist(x)
+		l.v.SetBool(!mine)
+		h1, ok1 := cfEncodeHist(x)
+		if ok0 && ok1 && h0 != h1 {
+			carried = true
+			break
+		}
+	}
+	for i, o := range sib {
+		o.v.SetBool(saved[i])
+	}
+	l.v.SetBool(mine)
+	return carried
+}
+
 type cfHist [257]int
 
 func cfEncodeHist(x encoder) (h cfHist, ok bool) {
@@ -341,6 +384,11 @@ func cfAnalyse(x encoder, y interface{}) (r cfResult, ok bool) {
 			}
 		}
 		l.v.Set(orig)
+		if !carried && l.v.Kind() == reflect.Bool {
+			// a flag may be masked by the other flags of its struct in this particular value (attribute bits computed in
+			// a switch): it is carried if flipping it changes the bytes with the sibling flags all off or all on
+			carried = cfFlagCarried(x, l, leaves)
+		}
 		if !carried {
 			continue
 		}
